@@ -853,7 +853,7 @@ Inductive op :=
 | OChunkFn (mn mx : nat) (m : mask)
 | OBuild (tid : nat) (target : option handle) (assigns : list (nat * Z)) (removes : list nat)
 | OTeardown
-| ORunJob (j : job) (parallel : bool) (tasks_override : nat) (workers : nat) (cap : nat) (acts : list (nat * bool * handle * nat)).
+| ORunJob (j : job) (parallel : bool) (tasks_override : nat) (workers : nat) (cap : nat) (acts : list (nat * bool * handle * nat)) (stay_locked : bool).
 
 Inductive out := RNone | RHandle (h : handle) | RBool (b : bool) | RCell (present : bool) (v : cell) | RNullHandle
 | RJob (last : N) (arrays : list (nat * nat * list (handle * list (option cell)))).   (* task, first entity index, entities *)
@@ -1131,7 +1131,7 @@ Definition step (s : mst) (o : op) : res (mst * out) :=
             | _ => Ok st'
             end) b st) (combine (seq 0 (length (bufs s1))) (bufs s1)) s1;
     Ok (s2, RNone)
-  | ORunJob j parallel tov workers cap acts =>
+  | ORunJob j parallel tov workers cap acts stay_locked =>
     (* BaseJob::run: base_job.cpp:91-139 *)
     do r <- job_filter s j;
     let '(s1, fas0) := r in
@@ -1157,6 +1157,8 @@ Definition step (s : mst) (o : op) : res (mst * out) :=
       do s2' <- fold_res (fun st (a : nat * bool * handle * nat) =>
                   let '(idx, gm, h, c) := a in
                   if Nat.ltb idx total then (if gm then do r <- get_mut st h c None; Ok (fst r) else mark_dirty st h c) else Ok st) acts s2;
+      (* stay_locked: the script continues with the structural calls the callback makes (recorded while locked) and unlocks itself *)
+      if stay_locked then Ok (s2', RJob last' (snd vis)) else
       do r3 <- do_unlock s2';
       Ok (fst r3, RJob last' (snd vis))
     end
